@@ -13,6 +13,10 @@ pub(super) struct BlockAllocator {
     next_block: UnsafeCell<Block>,
     paths: Arc<WalPathManager>,
     lock: AtomicBool,
+    /// Block ids are only unique within one instance (each allocator and each recovery starts
+    /// at 1), while the block/file state trackers are process-wide: every tracker entry is
+    /// keyed by this namespace (the instance's directory) together with the block id.
+    ns: String,
 }
 
 impl BlockAllocator {
@@ -34,9 +38,14 @@ impl BlockAllocator {
                 file_path: file1,
                 mmap,
             }),
+            ns: paths.root().to_string_lossy().into_owned(),
             paths,
             lock: AtomicBool::new(false),
         })
+    }
+
+    pub(super) fn ns(&self) -> &str {
+        &self.ns
     }
 
     /// SAFETY: Caller must ensure the returned `Block` is treated as uniquely
@@ -74,10 +83,10 @@ impl BlockAllocator {
         }
 
         // set the cur block as locked
-        BlockStateTracker::register_block(data.id as usize, &data.file_path);
+        BlockStateTracker::register_block(&self.ns, data.id as usize, &data.file_path);
         FileStateTracker::register_file_if_absent(&data.file_path);
         FileStateTracker::add_block_to_file_state(&data.file_path);
-        FileStateTracker::set_block_locked(data.id as usize);
+        FileStateTracker::set_block_locked(&self.ns, data.id as usize);
         let ret = data.clone();
         data.offset += DEFAULT_BLOCK_SIZE;
         data.id += 1;
@@ -148,10 +157,10 @@ impl BlockAllocator {
             mmap: data.mmap.clone(),
         };
         // register the new block before handing it out
-        BlockStateTracker::register_block(ret.id as usize, &ret.file_path);
+        BlockStateTracker::register_block(&self.ns, ret.id as usize, &ret.file_path);
         FileStateTracker::register_file_if_absent(&ret.file_path);
         FileStateTracker::add_block_to_file_state(&ret.file_path);
-        FileStateTracker::set_block_locked(ret.id as usize);
+        FileStateTracker::set_block_locked(&self.ns, ret.id as usize);
         data.offset += alloc_size;
         data.id += 1;
         self.unlock();
@@ -249,32 +258,32 @@ struct BlockState {
 pub(super) struct BlockStateTracker {}
 
 impl BlockStateTracker {
-    fn map() -> &'static RwLock<HashMap<usize, BlockState>> {
-        static MAP: OnceLock<RwLock<HashMap<usize, BlockState>>> = OnceLock::new();
+    fn map() -> &'static RwLock<HashMap<(String, usize), BlockState>> {
+        static MAP: OnceLock<RwLock<HashMap<(String, usize), BlockState>>> = OnceLock::new();
         MAP.get_or_init(|| RwLock::new(HashMap::new()))
     }
 
-    pub(super) fn register_block(block_id: usize, file_path: &str) {
+    pub(super) fn register_block(ns: &str, block_id: usize, file_path: &str) {
         let map = Self::map();
         if let Ok(mut w) = map.write() {
-            w.entry(block_id).or_insert_with(|| BlockState {
+            w.entry((ns.to_string(), block_id)).or_insert_with(|| BlockState {
                 is_checkpointed: AtomicBool::new(false),
                 file_path: file_path.to_string(),
             });
         }
     }
 
-    pub(super) fn get_file_path_for_block(block_id: usize) -> Option<String> {
+    pub(super) fn get_file_path_for_block(ns: &str, block_id: usize) -> Option<String> {
         let map = Self::map();
         let r = map.read().ok()?;
-        r.get(&block_id).map(|b| b.file_path.clone())
+        r.get(&(ns.to_string(), block_id)).map(|b| b.file_path.clone())
     }
 
-    pub(super) fn set_checkpointed_true(block_id: usize) {
+    pub(super) fn set_checkpointed_true(ns: &str, block_id: usize) {
         let path_opt = {
             let map = Self::map();
             if let Ok(r) = map.read() {
-                if let Some(b) = r.get(&block_id) {
+                if let Some(b) = r.get(&(ns.to_string(), block_id)) {
                     // Count every block once: readers call this each time they find their
                     // cursor at the end of the block (every peek, every empty poll), and the
                     // per-file counter decides when the file may be deleted.
@@ -345,8 +354,8 @@ impl FileStateTracker {
         flush_check(file_path);
     }
 
-    pub(super) fn set_block_locked(block_id: usize) {
-        if let Some(path) = BlockStateTracker::get_file_path_for_block(block_id) {
+    pub(super) fn set_block_locked(ns: &str, block_id: usize) {
+        if let Some(path) = BlockStateTracker::get_file_path_for_block(ns, block_id) {
             let map = Self::map();
             if let Ok(r) = map.read() {
                 if let Some(st) = r.get(&path) {
@@ -356,8 +365,8 @@ impl FileStateTracker {
         }
     }
 
-    pub(super) fn set_block_unlocked(block_id: usize) {
-        if let Some(path) = BlockStateTracker::get_file_path_for_block(block_id) {
+    pub(super) fn set_block_unlocked(ns: &str, block_id: usize) {
+        if let Some(path) = BlockStateTracker::get_file_path_for_block(ns, block_id) {
             let map = Self::map();
             if let Ok(r) = map.read() {
                 if let Some(st) = r.get(&path) {
